@@ -28,7 +28,7 @@ META = {
                    '(structure and object identity) of target, spec and caller scope are compared before/after every thunk.',
     'bounds': {
         'quick': {'history length': 3, 'thunk pool': 14, 'toggles': 7, 'data': 'unbounded symbolic ints, lists <= 3'},
-        'thorough': {'history length': 4},
+        'thorough': {'history length': '2 (every thunk pair x every toggle), 3 (10 leading pairs x every third thunk x 5 x 5 toggles; 14 concrete families checked against fresh-interpreter constants), 4 (12 families)'},
     },
     'stubs': ['S3 glom_debug=True', 'S4 state reset (the definition of fresh state for symbolic thunks)'],
     'outside_claim': ['>10000 distinct path strings is represented by a directly constructed over-full cache', 'interleaving with '
@@ -358,10 +358,10 @@ def obligations(tier):
     for p0 in p0s:
         for g0 in g0s:
             for rep in ((True,) if q else (True, False)):
-                if not rep and (p0 not in (0, 1, 4, 8, 15, 18, 19) or g0 not in (1, 4, 6, 7)):
-                    continue             # sized for the thorough tier: about 1000 paths per obligation
+                if not rep and (p0 not in (0, 1, 4, 8, 15, 18, 19) or g0 not in (4, 7)):
+                    continue             # sized for the thorough tier: about 600 paths per obligation, each path several glom calls from fresh state
                 fx = {'p0': p0, 'g0': g0}
-                pre = '0 <= p2 < %d and ' % NTHUNK + ('(g1 == 0 or g1 == 1 or g1 == 4 or g1 == 7)' if q else '0 <= g1 < %d' % NTOGGLE)
+                pre = '0 <= p2 < %d and ' % NTHUNK + ('(g1 == 0 or g1 == 1 or g1 == 4 or g1 == 7)' if (q or not rep) else '0 <= g1 < %d' % NTOGGLE)
                 if rep:
                     fx['p1'] = p0
                 else:
@@ -369,9 +369,10 @@ def obligations(tier):
                 obs.append(Ob(history_concrete, fixed=fx, pre=pre, name='history_concrete_%d_g%d_%s' % (p0, g0, 'rep' if rep else 'any'),
                               timeout=200 if rep else 1800, path_timeout=60))
     if not q:
-        for p0 in (0, 1, 4, 8, 12, 15, 16, 18, 19):
-            for p1 in (0, 1, 4, 8):
-                obs.append(Ob(history3, fixed={'p0': p0, 'p1': p1}, pre='0 <= p2 < %d and 0 <= g0 < %d and 0 <= g1 < %d' % (NTHUNK, NTOGGLE, NTOGGLE),
+        g5 = '(g0 == 0 or g0 == 1 or g0 == 4 or g0 == 6 or g0 == 7) and (g1 == 0 or g1 == 1 or g1 == 4 or g1 == 6 or g1 == 7)'
+        for p0 in (0, 4, 8, 15, 19):
+            for p1 in (1, 4):
+                obs.append(Ob(history3, fixed={'p0': p0, 'p1': p1}, pre='0 <= p2 < %d and %s' % (NTHUNK, g5),
                               name='history3_%d_%d' % (p0, p1), timeout=1800))
         for p0 in (0, 1, 4, 8):
             for g0 in (1, 4, 6):
